@@ -139,8 +139,8 @@ theorem setTimeoutList_getS (cfg : Cfg) (l : Led) (h : Nat) (txs : List Tx) (rcp
       induction xs with
       | nil => intro l; rfl
       | cons x rest ih => intro l; simp only [List.foldl_cons]; rw [ih, hf]
-    rw [frame _ (fun l p => by simp only [Led.getS_setS]; rw [if_neg (fun e => hk _ e.symm)])]
-    rw [frame _ (fun l p => by simp only [Led.getS_addS]; rw [if_neg (fun e => hk _ e.symm)])]
+    rw [frame _ (fun l p => by unfold remStep; simp only [Led.getS_setS]; rw [if_neg (fun e => hk _ e.symm)])]
+    rw [frame _ (fun l p => by unfold addStep; simp only [Led.getS_addS]; rw [if_neg (fun e => hk _ e.symm)])]
 
 /-- the timeout step keeps a dead group dead (it moves listed groups to BEGIN_ROLLBACK, which is dead, and touches no other group) -/
 theorem setTimeoutRollback_glob_dead (l : Led) (h : Nat) (gid : GId) (st : Status)
